@@ -79,7 +79,8 @@ def py_row(row, table):
         elif c.typ == "DOUBLE":
             out.append("f:" + repr(float(v)))
         elif c.typ.startswith("DECIMAL"):
-            out.append("d:" + str(v))
+            from decimal import Decimal
+            out.append("d:" + format(Decimal(str(v)).normalize(), "f"))
         elif c.typ == "DATE":
             out.append("D:" + str(v))
         else:
